@@ -162,6 +162,14 @@ def test_strings(chk):
                 out.append(''.join(rng.choice([chr(rng.randrange(32, 127)), ' ', "'", '"', '\\', '\n', '\x00', '\xe9',
                                                '中', '\U0001f600', '\t', '\xa0', '-', '/', 'word'])
                                    for _ in range(n)))
+    # runs of one unusual character (longer than any piece), alone and embedded: the splitter must still
+    # make progress whatever Unicode category the characters at a cut point have
+    UNUSUAL = ['\u0301', '\u030a', '\u200d', '\u200b', '\u2028', '\u2029', '\x85', '\x0c', '\x0b', '\x1c', '\t', '\xa0',
+               '\u3000', '\U0001f600', '\ufeff', '\u202e', '\x7f', '\xad', '\r', '\ud800', '\U000e0001']
+    for ch in (UNUSUAL if not q else rng.sample(UNUSUAL, 7) + ['\u0301']):
+        out.append(ch * 30)
+        out.append('head a' + ch * 40 + ' tail')
+        out.append('z' + (ch + '\u030a\u0308') * 5 + ' tail')
     return out
 
 
